@@ -321,6 +321,31 @@ def run(tier, t0):
         WANT_T = '(<serde_json::Value as std::clone::Clone>::clone (<std::vec::Vec<T, A> as std::ops::Index<I>>::index (std::option::Option::unwrap (serde_json::Value::as_array (std::option::Option::unwrap (serde_json::Value::get_mut output "threads")))) (Some.0 self.requesting_thread)))'
         ok = ('requesting_thread' in ins['threads_index'][1] and 'json_registers' in ins['registers'][1] and ins['crashing_thread'][1] == 'thread'
               and tdef in (WANT_T, WANT_T.replace('serde_json::Value::get_mut output', 'serde_json::Value::get output')))
+    # ... and nothing else touches the copy: between the clone and the insertion under "crashing_thread" no call shortens,
+    # reorders or replaces parts of it, and the only keys inserted are the two documented additions
+    res.rule('C15.4', 1)
+    clones = [b for b, t in f.calls() if f.callee(t).endswith('Clone>::clone') and 'serde_json::Value' in f.callee(t) and '"threads"' in show(f.expand(f.call_tree(t)))]
+    finals = [b for b, t in f.calls() if f.callee(t) == 'serde_json::Map::insert' and any(isinstance(x, tuple) and x and x[0] == 'str' and x[1] == 'crashing_thread' for x in walk(f.expand(f.operand_tree(t['args'][1]))))]
+    if len(clones) == 1:
+        finals = [b for b in finals if f.dominates(clones[0], b)]
+    if len(clones) != 1 or len(finals) != 1:
+        res.error('C15.4', 'the clone of threads[..] / the insertion of "crashing_thread" were not found (%d / %d)' % (len(clones), len(finals)))
+    else:
+        cb, fb = clones[0], finals[0]
+        back = f.can_reach(fb) if hasattr(f, 'can_reach') else set(range(len(f.blocks)))
+        region = [b for b in sorted(f.reach) if b != cb and f.dominates(cb, b) and b in back]
+        MUT = re.compile(r'(Vec<[^>]*>|Vec|VecDeque|Map<[^>]*>|Map|IndexMap|BTreeMap|HashMap)::(truncate|remove|pop|clear|retain|retain_mut|drain|swap_remove|shift_remove|dedup\w*|split_off|push|resize\w*|reverse|sort\w*|swap|rotate_\w+|append|extend\w*|remove_entry|take)$|^(core|std)::mem::(take|replace|swap)$|serde_json::Value::take$')
+        for b in region:
+            t = f.blocks[b]['t']
+            if t['k'] != 'call':
+                continue
+            nm = f.callee(t) or ''
+            if MUT.search(nm):
+                res.violation('C15.4', 'C15.4|crashing_thread|' + nm.split('::')[-1], f, t.get('line'), 'the crashing_thread copy is modified by %s before it is inserted: the copy must stay the threads entry plus `registers` and `threads_index` (e.g. its frames must match its own frame_count)' % nm)
+            if nm == 'serde_json::Map::insert' and b != fb:
+                ks = [x[1] for x in walk(f.expand(f.operand_tree(t['args'][1]))) if isinstance(x, tuple) and x and x[0] == 'str']
+                if not ks or any(k not in ('registers', 'threads_index') for k in ks):
+                    res.violation('C15.4', 'C15.4|crashing_thread|key', f, t.get('line'), 'the crashing_thread copy receives the key %s; only `registers` (first frame) and `threads_index` are added' % ks)
     if not ok:
         res.violation('C15.4', 'C15.4|crashing_thread', f, f.line, 'crashing_thread is not clone(threads[requesting_thread]) + registers + threads_index: %s' % {k: v[1][:80] for k, v in ins.items()})
     # ---- C15.5 single serialiser
